@@ -6,6 +6,7 @@
 //   fault.midsave <scenario>                        value/consistency error detected midway through a save
 // answer: ok | exc:<class> [n=<count>]   (terminate / crashes / leaks are detected by check.py)
 #include "harness.h"
+#include <fstream>
 #include <sstream>
 #include <streambuf>
 #include <map>
@@ -212,6 +213,23 @@ Register f5("fault.option", [](const Tokens& t) -> std::string {
 	else throw BadOp("scenario");
 	if (__lsan_do_recoverable_leak_check()) r += " LEAK";
 	return r;
+});
+
+// fault.preset <mp|json|xml|csv> <fail|eof|unopened>: the output stream is ALREADY in a failed state (failbit without badbit: a file that
+// could not be opened, a stream left at eof/fail by earlier use): nothing can be written, the save must report it
+Register f6("fault.preset", [](const Tokens& t) -> std::string {
+	if (t.size() != 3) throw BadOp("arity");
+	auto run = [&](std::ostream& os) -> std::string {
+		if (t[1] == "mp") return guarded([&] { auto o = sampleOuter(); SaveObject<MsgPack::MsgPackArchive>(o, os); });
+		if (t[1] == "json") return guarded([&] { auto o = sampleOuter(); SaveObject<Json::RapidJson::JsonArchive>(o, os); });
+		if (t[1] == "xml") return guarded([&] { auto o = sampleOuter(); SaveObject<Xml::PugiXml::XmlArchive>(o, os); });
+		if (t[1] == "csv") return guarded([&] { auto r = sampleRows(); SaveObject<Csv::CsvArchive>(r, os); });
+		throw BadOp("archive");
+	};
+	if (t[2] == "fail") { std::ostringstream os; os.setstate(std::ios::failbit); return run(os); }
+	if (t[2] == "eof") { std::ostringstream os; os.setstate(std::ios::eofbit | std::ios::failbit); return run(os); }
+	if (t[2] == "unopened") { std::ofstream os("/nonexistent-directory/for-the-harness/out.bin", std::ios::binary); return run(os); }
+	throw BadOp("state");
 });
 
 Register f4("fault.midsave", [](const Tokens& t) -> std::string {
